@@ -1,7 +1,7 @@
 (* C02/Properties.v — property theorems only.  Each is closed by [exact lemma] and followed by
    [Print Assumptions]. *)
 From RM Require Import C08.Model.
-From RM Require Import C02.Model C02.ModelR5 C02.Documented C02.Proofs1 C02.Proofs2 C02.Proofs3 C02.Proofs4 C02.Proofs5 C02.Proofs6 C02.Proofs7 C02.Proofs8 C02.Proofs9 C02.Proofs10.
+From RM Require Import C02.Model C02.ModelR5 C02.ModelR6 C02.Documented C02.Proofs1 C02.Proofs2 C02.Proofs3 C02.Proofs4 C02.Proofs5 C02.Proofs6 C02.Proofs7 C02.Proofs8 C02.Proofs9 C02.Proofs10 C02.Proofs11.
 Open Scope Z_scope.
 
 (* The layouts regenerated from minidump-common/src/format.rs on this run are the documented ones:
@@ -645,3 +645,35 @@ Example c02_nonvacuous_kv :
   (* outside the theorem's hypotheses: trimming, quotes, a line without separator *)
   kv_pairs 61 [32; 65; 32; 61; 32; 34; 98; 32; 34; 9; 10; 110; 111; 115; 101; 112; 10; 61] = [([65], [98; 32]); ([], [])].
 Proof. vm_compute. repeat split. Qed.
+
+(* ------------------------------------------------------------------ round 5, second pass: the content of the LinuxMaps stream *)
+(* MinidumpLinuxMaps::read = procfs-core's MemoryMaps::from_read (ModelR6.parse_maps: BufRead::lines, smaps extension lines,
+   splitn(6, ' '), from_str_radix with sign and overflow, permission letters, MMapPath::from after str::trim, the panic sites).
+   Any number of lines as the kernel writes them (show_map_vma: hexadecimal addresses / offset / device with any zero padding that
+   holds the value, `rwxp` letters, decimal inode, any number of blanks, then nothing / a special name / [stack:<tid>] / [other] /
+   /SYSV<key> with or without " (deleted)" / any path that is UTF-8, one line, not white space at either end and not of a
+   bracketed or /SYSV form), each ended by LF, read back as exactly these mappings, in order, in debug and release builds *)
+Theorem c02_maps_roundtrip : forall p l, forallb wf_entry l = true -> parse_maps p (maps_text l) = Ret (map snd l).
+Proof. exact maps_roundtrip. Qed.
+Print Assumptions c02_maps_roundtrip.
+
+(* the same through the whole file: the listing is the LinuxMaps stream of a well-formed 20-stream model, serialized in either byte
+   order; Minidump::read followed by get_stream::<MinidumpLinuxMaps> *)
+Theorem c02_maps_in_dump : forall p e m l, wf_model e m = true -> m_lx_maps m = Some (maps_text l) -> forallb wf_entry l = true ->
+  option_map (linux_maps_of p) (decode_dump (encode_dump e m)) = Some (SOk (Ret (map snd l))).
+Proof. exact maps_in_dump. Qed.
+Print Assumptions c02_maps_in_dump.
+
+(* a four-line listing (a path with a blank and a two-byte character, a thread stack, a deleted SysV segment with a negative key, an
+   anonymous mapping that ends at 2^64-1) meets the hypotheses; outside them: a name between no-break spaces is trimmed, a line that
+   opens with an upper-case hex digit is taken for an smaps key, `kB` values of 2^54 and more trap in debug builds only, a short
+   /SYSV name and a thread-stack name ending in a two-byte character are the two panics of MMapPath::from *)
+Example c02_nonvacuous_maps :
+  forallb wf_entry ex_maps = true /\ parse_maps Debug (maps_text ex_maps) = Ret (map snd ex_maps) /\ zlen (maps_text ex_maps) = 304 /\
+  classify [194; 160; 91; 104; 101; 97; 112; 93; 227; 128; 128] = Ret PHeap /\
+  parse_maps Release [65; 48; 45; 66; 48; 32; 114; 45; 45; 112; 32; 48; 32; 48; 58; 48; 32; 48; 32; 10] = Fail /\
+  (let t := [49; 45; 50; 32; 114; 45; 45; 112; 32; 48; 32; 48; 58; 48; 32; 48; 32; 10; 80; 115; 115; 58; 32;
+             49; 56; 48; 49; 52; 51; 57; 56; 53; 48; 57; 52; 56; 49; 57; 56; 52; 32; 107; 66; 10] in
+   parse_maps Debug t = Panic 3 /\ ostatus_is_ret (parse_maps Release t) = true) /\
+  classify [47; 83; 89; 83; 86; 49; 50] = Panic 2 /\ classify [91; 115; 116; 97; 99; 107; 58; 53; 195; 169] = Panic 1.
+Proof. vm_compute. repeat split; reflexivity. Qed.
